@@ -11,6 +11,10 @@ Definition m_pext_go := pext_go.
 Definition m_repeat32 := repeat32.
 Definition m_max_fragment_internal := Sizes.max_fragment_internal.
 Definition m_max_padding := Sizes.max_padding.
+Definition m_max_fragment := Sizes.max_fragment.
+Definition m_le_encoded_len := Sizes.le_encoded_len.
+Definition m_src_bytes := Sizes.src_bytes.
+Definition m_mode_params := LowEntropy.mode_params.
 Definition m_valid_rotation := LowEntropy.valid_rotation.
 Definition m_lowbits := lowbits.
 Definition m_rotate_mask := LowEntropy.rotate_mask.
@@ -27,6 +31,7 @@ Extraction "model.ml"
   xl_protocol_maxFragmentSizeInternal xl_protocol_maxPaddingSize
   xl_protocol_isSessionProtocol xl_protocol_isLowEntropyProtocol xl_protocol_isDataProtocol xl_protocol_isAckProtocol
   xl_protocol_isDataAckProtocol xl_protocol_isValidLowEntropyRotation xl_protocol_lowBits xl_protocol_rotateLowEntropyMask
-  m_pdep_go m_pext_go m_repeat32 m_max_fragment_internal m_max_padding
+  xl_protocol_buildLowEntropyParams xl_protocol_lowEntropyEncodedPayloadLen xl_protocol_maxFragmentSize
+  m_pdep_go m_pext_go m_repeat32 m_max_fragment_internal m_max_padding m_max_fragment m_le_encoded_len m_src_bytes m_mode_params
   m_valid_rotation m_lowbits m_rotate_mask m_is_le_proto
   m_wire_is_session m_wire_is_data m_wire_is_ack m_wire_is_data_ack m_wire_is_low_entropy.
